@@ -7,6 +7,7 @@ mod litmus;
 mod pool;
 mod rc11;
 mod scm;
+mod seqcheck;
 mod specs;
 mod statics;
 mod subject;
